@@ -24,11 +24,12 @@ _outasm = ["pre-states are arbitrary states satisfying INV-out1/out2/seq of DESI
     "Persistence operations fail without effect; Load returns a private copy; net.Conn.Write contract as in C08"]
 S["C05"] = dict(title="Publishes and resends keep acceptance order; DUP marks only re-deliveries", technique=TECH+"; one/two operations from an arbitrary INV state, observed through resend", harnesses=[
     H("verifH_C05_reconnectrace", "a publisher racing the read routine's reconnect, the Persistence and the connection being scheduling points: both return (no lock-order deadlock), the new connection carries CONNECT, the pending transfers in order, then the new publish at most once without DUP; observer", T({"light":1}, time_sec=900), T({"light":0}, time_sec=1800, maxpaths=1000000), ("new-after-old","end")),
-    H("verifH_C05_concurrent", "bounded schedule exploration: two concurrent publishers on one level, <= k preemptions at channel operations: identifiers distinct, wire order = identifier order, whole packets only, tokens returned", T({"preempt":2,"wfaults":0}), T({"preempt":3,"wfaults":1}, time_sec=2400, maxpaths=3000000), ("both-written-in-order","end")),
+    H("verifH_C05_concurrent", "bounded schedule exploration: two concurrent publishers on one level, <= k preemptions at channel operations: identifiers distinct, wire order = identifier order, whole packets only, tokens returned", T({"preempt":2,"wfaults":0}), T({"preempt":2,"wfaults":1}, time_sec=2400, maxpaths=3000000), ("both-written-in-order","end")),
+    H("verifH_C05_concurrent", "same, 3 preemptions without write faults (thorough tier only)", {"skip":True}, T({"preempt":3,"wfaults":0}, time_sec=900, maxpaths=1000000), ("both-written-in-order","end")),
     H("verifH_C05_order", "L05.a two consecutive accepts: stamps n, n+1, wire order = acceptance order, DUP per written flag", T({"W":1,"wfaults":1}), T({"W":2,"wfaults":2}, time_sec=1500)),
     _accept_light, _resend, _ack, _connect_light],
   assumptions=_outasm+["schedules: serialisation of publishers follows from the single-slot seqSem token held across stamp+Save+enqueue+first write (checked on every sequential path: the token is taken first and returned last); interleavings themselves are not enumerated"],
-  bounds={"quick":"W<=2, 2 consecutive publishes, <= 2 faulty writes; 2 concurrent publishers with <= 2 preemptions","thorough":"W<=3; <= 3 preemptions and 1 write fault"},
+  bounds={"quick":"W<=2, 2 consecutive publishes, <= 2 faulty writes; 2 concurrent publishers with <= 2 preemptions","thorough":"W<=3; 2 preemptions with 1 write fault, and 3 preemptions without (3 preemptions with a write fault did not finish in 40 min: outside)"},
   outside=["fairness between publishers","more than 2 concurrent publishers or more than 3 preemptions (beyond that: the token argument)"])
 S["C17"] = dict(title="In-flight packet identifiers unique and bounded; excess gets ErrMax, no block", technique=TECH, harnesses=[
     H("verifH_C17_limits", "L17.a newClient limit normalisation for every int", reach=("end","zero")),
